@@ -153,10 +153,27 @@ where
         let m = Array2::from_shape_fn([n, n], |(i, j)| if i == j { P::Binary::default() } else { b.clone() });
         p = P::from_records(pure.to_vec(), Some(m)).expect("from_records(bin)");
     }
+    if let Some(m) = spec["binm"].as_array() {
+        p = with_binm(&p, m);
+    }
     if let Some(idx) = idx_of(&spec["idx"]) {
         p = reindex(&p, &idx);
     }
     p
+}
+
+/// pairwise different synthetic binary records: binm[i][j] is the JSON of the model's binary record
+fn with_binm<P: Parameter>(p: &P, m: &[Value]) -> P {
+    let (pure, _) = p.records();
+    let n = pure.len();
+    let mat = Array2::from_shape_fn([n, n], |(i, j)| {
+        if i == j {
+            P::Binary::default()
+        } else {
+            serde_json::from_value(m[i.min(j)][i.max(j)].clone()).expect("binm record")
+        }
+    });
+    P::from_records(pure.to_vec(), Some(mat)).expect("from_records(binm)")
 }
 
 /// `from_records(records[idx], binary[idx, idx])`: the model "built directly from those components".
@@ -228,6 +245,9 @@ fn syn_params<P: Parameter>(recs: Vec<P::Pure>, mw: &[f64], spec: &Value) -> P {
         Some(Array2::from_shape_fn([n, n], |(i, j)| if i == j { P::Binary::default() } else { b.clone() }))
     };
     let mut p = P::from_records(pure, bin).expect("from_records(syn)");
+    if let Some(m) = spec["binm"].as_array() {
+        p = with_binm(&p, m);
+    }
     if let Some(idx) = idx_of(&spec["idx"]) {
         p = reindex(&p, &idx);
     }
